@@ -59,14 +59,20 @@ pub struct Style {
     pub empt: bool,
     /// a comment in the middle of token-valued text: the character content of the element is the same
     pub cmtmid: bool,
+    /// namespace prefixes that only attributes use are declared once, on the root element, instead of on every element
+    /// that uses them
+    pub nsup: bool,
+    /// line ends of the layout written as CR LF / as bare CR (white space all the same)
+    pub crlf: bool,
+    pub cr: bool,
 }
 
-pub const FLAGS: [&str; 8] = ["pfx", "ws", "pad", "cmt", "attr", "decl", "empt", "cmtmid"];
+pub const FLAGS: [&str; 11] = ["pfx", "ws", "pad", "cmt", "attr", "decl", "empt", "cmtmid", "nsup", "crlf", "cr"];
 
 impl Style {
     pub fn from_flags(flags: &[String]) -> Style {
         let has = |f: &str| flags.iter().any(|x| x == f);
-        Style { pfx: has("pfx"), ws: has("ws"), pad: has("pad"), cmt: has("cmt"), attr: has("attr"), decl: has("decl"), empt: has("empt"), cmtmid: has("cmtmid") }
+        Style { pfx: has("pfx"), ws: has("ws"), pad: has("pad"), cmt: has("cmt"), attr: has("attr"), decl: has("decl"), empt: has("empt"), cmtmid: has("cmtmid"), nsup: has("nsup"), crlf: has("crlf"), cr: has("cr") }
     }
 }
 
@@ -170,8 +176,56 @@ fn render_node(n: &Node, st: &Style, depth: usize, root: bool, parent_ns: &str, 
     }
 }
 
+/// `xmlns:<prefix>` attributes of the elements below the root, removed there and collected (first binding of a prefix
+/// wins; an element that binds the prefix to something else keeps its own declaration)
+fn hoist_ns(n: &mut Node, root: bool, up: &mut Vec<(String, String)>) {
+    if let Node::Elem(e) = n {
+        if !root {
+            e.attrs.retain(|(k, v)| {
+                if !k.starts_with("xmlns:") || k == "xmlns:nc" || k == "xmlns:p" {
+                    return true;
+                }
+                match up.iter().find(|(k2, _)| k2 == k) {
+                    Some((_, v2)) => v2 != v,
+                    None => {
+                        up.push((k.clone(), v.clone()));
+                        false
+                    }
+                }
+            });
+        }
+        for k in e.kids.iter_mut() {
+            hoist_ns(k, false, up);
+        }
+    }
+}
+
 /// Serialise `root` in the given style, followed by the end-of-message delimiter.
 pub fn render(root: &Node, st: &Style) -> String {
+    let hoisted;
+    let root = if st.nsup {
+        let mut r = root.clone();
+        let mut up = Vec::new();
+        hoist_ns(&mut r, true, &mut up);
+        if let Node::Elem(e) = &mut r {
+            for (k, v) in up {
+                if !e.attrs.iter().any(|(k2, _)| *k2 == k) {
+                    e.attrs.push((k, v));
+                }
+            }
+        }
+        hoisted = r;
+        &hoisted
+    } else {
+        root
+    };
+    if st.crlf || st.cr {
+        // lay the document out with the other line-end convention (every line feed the layout writes; text content of
+        // the templates has none)
+        let plain = render(root, &Style { crlf: false, cr: false, nsup: false, ..st.clone() });
+        let body = plain.strip_suffix(EOM).unwrap_or(&plain);
+        return format!("{}{EOM}", body.replace('\n', if st.crlf { "\r\n" } else { "\r" }));
+    }
     let mut s = String::new();
     if st.decl {
         // the declaration itself has several equivalent spellings: pick one by the other flags
